@@ -1201,6 +1201,12 @@ def _create_converter(dataType):
                 # inferred schema is their union): place the values by name and
                 # fill what this row does not have with None, as for dicts
                 obj = create_row(names, [obj[n] if n in fields else None for n in names])
+            if len(obj) != len(names):
+                # a Row of a Row class may hold fewer values than the class has
+                # fields, and the schema may stem from another, narrower record
+                raise ValueError(
+                    f"Length of object ({len(obj)}) does not match with length of fields ({len(names)})"
+                )
             if convert_fields:
                 return create_row(
                     obj.__fields__,
